@@ -10,7 +10,7 @@ from .. import core, fm, km, mc, ref
 from ..core import Failure
 from .. import graphs
 
-NAMINGS = ['str', 'revint', 'tuple', 'mixed', 'strcollide', 'strlen', 'opaque']
+NAMINGS = ['str', 'revint', 'tuple', 'mixed', 'strcollide', 'strlen', 'opaque', 'zigzag', 'numeq']
 CONTAINERS = ['list', 'set', 'tuple']
 ATOM_MAPS = [{'p': 'alpha_long_name', 'q': 'Zq'}, {'p': 'q', 'q': 'p'}, {'p': 'a b', 'q': 'x-1'},
              {'p': 'pp', 'q': 'p_'}, {'p': 'fairness', 'q': 'E'}, {'p': 'q', 'q': 'qq'},
@@ -274,6 +274,54 @@ def random_shard(st, shard, nshards, payload):
         st.failure = f
 
 
+NAMING_FORMULAS = [('CTL', ('E', ('G', fm.P))), ('CTL', ('A', ('F', ('not', fm.P)))), ('CTL', ('E', ('U', fm.P, fm.Q))),
+                   ('CTL', ('A', ('X', fm.P))), ('CTL', ('E', ('R', fm.Q, fm.P))), ('CTL', ('A', ('G', ('E', ('F', fm.Q))))),
+                   ('CTLS', ('E', ('G', ('F', fm.P)))), ('CTLS', ('A', ('U', fm.P, ('X', fm.Q)))), ('CTLS', ('E', ('G', fm.P))),
+                   ('LTL', ('G', ('F', fm.P))), ('LTL', ('U', fm.P, fm.Q)), ('LTL', ('X', ('not', fm.Q)))]
+
+
+def check_naming(inp):
+    """The same structure under one state NAMING and under plain 0..n-1: the answers are images of each
+    other (mc.call maps both back to the abstract states)."""
+    K, checker = inp['K'], inp['checker']
+    f = top(checker, fm.from_json(inp['f']))
+    base = mc.call(checker, K, f, 'int', 0)
+    out = mc.call(checker, K, f, inp['naming'], inp.get('how', 0), inp.get('containers', 'list'))
+    if out != base:
+        return Failure('naming', inp, mc.show(base), mc.show(out),
+                       'states named by %r instead of 0..n-1' % inp['naming'])
+    return None
+
+
+CHECKS['naming'] = check_naming
+
+
+def naming_shard(st, shard, nshards, payload):
+    """Systematic: every structure of the small scope x a dozen formulas x EVERY state naming."""
+    names = sorted(graphs.NAMINGS)
+    i = -1
+    for n, stride in payload['scopes']:
+        for j, K in enumerate(km.scope(n)):
+            if j % stride:
+                continue
+            for fi, (checker, f) in enumerate(NAMING_FORMULAS):
+                if checker != 'CTL' and (j // stride + fi) % payload['slow_stride']:
+                    continue
+                for ni, naming in enumerate(names):
+                    i += 1
+                    if i % nshards != shard or naming == 'int':
+                        continue
+                    inp = {'K': K, 'checker': checker, 'f': f, 'naming': naming, 'how': (j + ni) % 6,
+                           'containers': CONTAINERS[(j + fi) % 3]}
+                    st.evaluations += 1
+                    st.bump('naming scope: ' + naming)
+                    r = check_naming(inp)
+                    if r is not None:
+                        if st.failure is None:
+                            st.failure = r
+                        return
+
+
 def run(ctx):
     ctx.rule = ('(A) metamorphic, in-process: Hypothesis (K <= 4 states, formula of the called logic, '
                 'checker) and a transformation: a random state bijection composed with a naming '
@@ -294,9 +342,17 @@ def run(ctx):
     if f is not None:
         ctx.violation(f)
         return
+    np_ = {'scopes': ctx.pick([(1, 1), (2, 1), (3, 53)], [(1, 1), (2, 1), (3, 5), (4, 20011)]), 'slow_stride': ctx.pick(3, 1)}
+    f = core.run_sharded(ctx, naming_shard, np_)
+    if f is not None:
+        ctx.violation(f)
+        return
     seeds = ctx.pick([0, 1, 2, 3, 7, 11, 101, 4242], list(range(16)) + [101, 4242, 65535, 123456789])
     corpus = make_corpus(ctx.seed * 1000 + 77, ctx.pick(300, 1200))
     ctx.scopes = ['%d transformation cases' % (shards * n),
+                  'naming scope: structures %s x 12 formulas (CTL, CTL*, LTL) x each of the %d state namings (strings, tuples, mixed types, '
+                  'colliding prints, identity objects, negative and positive small ints, equal numbers of different types, ...)'
+                  % (', '.join('every %dth of S(%d)' % (s_, n_) if s_ > 1 else 'S(%d)' % n_ for n_, s_ in np_['scopes']), len(graphs.NAMINGS)),
                   '%d-case corpus x PYTHONHASHSEED in %s' % (len(corpus), seeds)]
     ctx.assumptions = ['the hash seeds are a finite sample', 'vp/ref.py R-STAR for part (B)']
     res = run_seeds(corpus, seeds)
